@@ -177,7 +177,9 @@ def run(ctx: Ctx) -> int:
             continue
         items = [(s["call"], s["exp"]) for s in states if s["call"]["fn"] != "none"]
         if q and len(items) > 6000:
-            items = items[::4]
+            # (cases with a long list are all kept, next to each other: equal-length lists following one another in one process)
+            long_ = [it for it in items if any(isinstance(a, dict) and a.get("t") == "list" and len(a["v"]) > 8 for a in it[0]["args"])]
+            items = [it for it in items if it not in long_][::4] + long_
             ctx.cov.setdefault("replay_note", []).append("family %s: every 4th case replayed in the quick tier (all model-checked)" % fam)
         for n, bad in pmap(_replay, items):
             nobs += n
